@@ -106,6 +106,31 @@ Lemma non_ascii_href : exists o,
   cquote (url cquote w_non_ascii o) <> url cquote w_non_ascii o.
 Proof. exists 1. repeat split; [vm_compute; auto|vm_compute; auto|vm_compute; discriminate]. Qed.
 
+(* (f) the docstring of B.x, inherited by S.x, is rendered with page_url = B's page but placed on S's page:
+   L{t} becomes `#t`, live on m.B.html and dead on m.S.html *)
+Lemma w_inherit_wf : wf w_inherit.
+Proof. apply wf_b_sound. vm_compute. reflexivity. Qed.
+
+Lemma live_live_at : forall quote tbl r cur h, live quote tbl r cur h = true -> live_at quote tbl r cur h.
+Proof.
+  intros quote tbl r cur h H. unfold live in H. unfold live_at. destruct (resolve cur h) as [f fr]. cbn [fst snd].
+  apply andb_prop in H. destruct H as [Hf Ha]. split.
+  - apply existsb_exists in Hf. destruct Hf as [x [Hx E]]. apply text_eqb_eq in E. now subst x.
+  - intros a Ea. subst fr. apply existsb_exists in Ha. destruct Ha as [[f' n] [Hx E]]. cbn [fst snd] in E.
+    apply andb_prop in E. destruct E as [E1 E2]. apply text_eqb_eq in E1. subst f'. exists n. split; [exact Hx|].
+    unfold frag_matches in E2. apply orb_prop in E2. destruct E2 as [E2|E2]; apply text_eqb_eq in E2; auto.
+Qed.
+
+Lemma inherited_docstring_context :
+  exists h, taglink cquote table_pinned w_inherit 2 (url cquote w_inherit 1) = Some (c_hash :: h) /\
+            live_at cquote table_pinned w_inherit (url cquote w_inherit 1) (c_hash :: h) /\
+            ~ live_at cquote table_pinned w_inherit (url cquote w_inherit 4) (c_hash :: h).
+Proof.
+  exists [116%N]. split; [vm_compute; reflexivity|]. split.
+  - apply live_live_at. vm_compute. reflexivity.
+  - intros H. apply live_at_live in H. vm_compute in H. discriminate.
+Qed.
+
 (* non-vacuity *)
 Lemma w_example_wf : wf w_example.
 Proof. apply wf_b_sound. vm_compute. reflexivity. Qed.
